@@ -5,6 +5,7 @@ import (
 	"bytes"
 	"net"
 	"slices"
+	"strings"
 
 	"github.com/libp2p/go-libp2p/core/peer"
 	"github.com/multiformats/go-multiaddr"
@@ -26,7 +27,7 @@ func FilterPublic(maddrs []multiaddr.Multiaddr) []multiaddr.Multiaddr {
 		case multiaddr.P_IP4, multiaddr.P_IP6, multiaddr.P_IP6ZONE, multiaddr.P_IPCIDR:
 			return manet.IsPublicAddr(target) && !manet.IsIPUnspecified(target)
 		case multiaddr.P_DNS, multiaddr.P_DNS4, multiaddr.P_DNS6, multiaddr.P_DNSADDR:
-			return c.Value() != "localhost"
+			return isPublicName(c.Value())
 		}
 		return true
 	})
@@ -34,6 +35,25 @@ func FilterPublic(maddrs []multiaddr.Multiaddr) []multiaddr.Multiaddr {
 		return nil
 	}
 	return filtered
+}
+
+// isPublicName reports whether the host name of a DNS multiaddr component
+// may be taken for a public address. The loopback name in any spelling is
+// not, and a name that is an IP literal - which every dialer uses as the IP
+// address it spells - is judged as that address.
+func isPublicName(name string) bool {
+	name = strings.ToLower(strings.TrimSuffix(name, "."))
+	if name == "localhost" || strings.HasSuffix(name, ".localhost") {
+		return false
+	}
+	if ip := net.ParseIP(strings.Trim(name, "[]")); ip != nil {
+		ma, err := manet.FromIP(ip)
+		if err != nil {
+			return false
+		}
+		return manet.IsPublicAddr(ma) && !manet.IsIPUnspecified(ma)
+	}
+	return true
 }
 
 func FindHTTPAddrs(maddrs []multiaddr.Multiaddr) []multiaddr.Multiaddr {
